@@ -119,7 +119,7 @@ def run_case(base, case, acc):
             if k == 4 and len(orders) > 8:
                 orders = rng.sample(orders, 8) if rng.random() < 0.7 else orders
             for order in orders:
-                form = rng.choice(["Gene.knock_out", "knock_out_model_genes:objects", "knock_out_model_genes:ids", "knock_out_model_genes:indices"])
+                form = rng.choice(["Gene.knock_out", "knock_out_model_genes:objects", "knock_out_model_genes:ids", "knock_out_model_genes:indices", "mixed", "mixed"])
                 in_ctx = rng.random() < 0.5
                 acc.add("forms", form)
                 ctx = dict(ident, order=list(order), form=form, in_context=in_ctx)
@@ -130,7 +130,47 @@ def run_case(base, case, acc):
                     acc.count("sequences_in_context")
                 try:
                     knocked = set()
-                    if form == "Gene.knock_out":
+                    if form == "mixed":
+                        # every gene (or chunk of genes) goes through a route of its own:
+                        # earlier knock-outs must stay in force whatever the later route,
+                        # also for a gene flagged non-functional beforehand and across a
+                        # copy of the model taken in between
+                        todo = list(order)
+                        while todo and ok:
+                            route = rng.choice(["Gene.knock_out", "kmg:one-id", "kmg:one-object", "kmg:chunk", "flag-then-knock_out", "copy-then-Gene.knock_out"])
+                            acc.add("mixed_routes", route)
+                            if route == "copy-then-Gene.knock_out":
+                                if in_ctx:
+                                    continue
+                                m = m.copy()
+                                acc.count("copies_between_knock_outs")
+                                ok = compare(acc, m, rules, orig, knocked, (), dict(ctx, route=route), "Model.copy-between-knock-outs")
+                                if not ok:
+                                    break
+                                route = "Gene.knock_out"
+                            if route == "kmg:chunk":
+                                chunk = [todo.pop(0) for _ in range(min(len(todo), rng.randint(1, 3)))]
+                            else:
+                                chunk = [todo.pop(0)]
+                            if route == "Gene.knock_out":
+                                m.genes.get_by_id(chunk[0]).knock_out()
+                            elif route == "flag-then-knock_out":
+                                g = m.genes.get_by_id(chunk[0])
+                                g.functional = False
+                                g.knock_out()
+                            else:
+                                arg = [m.genes.get_by_id(g) for g in chunk] if route == "kmg:one-object" else list(chunk)
+                                ret = knock_out_model_genes(m, arg)
+                            knocked |= set(chunk)
+                            ok = compare(acc, m, rules, orig, knocked, (), dict(ctx, route=route, chunk=chunk), "mixed-routes")
+                            if ok and route.startswith("kmg"):
+                                acc.ev()
+                                want = {r.id for r in m.reactions if rules[r.id] is not None and not gen.gpr_eval(rules[r.id], knocked) and ({g.id for g in r.genes} & set(chunk))}
+                                got = {r.id for r in ret}
+                                if got != want:
+                                    ok = False
+                                    acc.violation("C07/knock_out_model_genes/returned-list", f"knock_out_model_genes({chunk}) after {sorted(knocked - set(chunk))} returned {sorted(got)}, reactions of these genes whose rule is false: {sorted(want)}", dict(ctx, got=sorted(got), expected=sorted(want), chunk=chunk))
+                    elif form == "Gene.knock_out":
                         for gid in order:
                             m.genes.get_by_id(gid).knock_out()
                             knocked.add(gid)
